@@ -61,7 +61,7 @@ func ulpClose32(a, b float32, rel float64) bool {
 	if math.IsNaN(fa) && math.IsNaN(fb) {
 		return true
 	}
-	return math.Abs(fa-fb) <= rel*math.Max(math.Abs(fa), math.Abs(fb))
+	return math.Abs(fa-fb) <= rel*math.Max(math.Abs(fa), math.Abs(fb))+1e-37 // the floor covers denormals, whose low bits the 4-byte form drops as well
 }
 
 // compareCallLogs compares the direct call log with the decoded one.
